@@ -576,6 +576,9 @@ func (e *Engine) scanAssumptions() []string {
 			if cl.Kind == "assume" {
 				out = append(out, fmt.Sprintf("assume in %s (%s:%d): %s", con.Key, filepath.Base(cl.File), cl.Line, cl.Text))
 			}
+			if cl.Kind == "defines" {
+				out = append(out, fmt.Sprintf("abstraction (determinism assumed) in %s (%s:%d): %s", con.Key, filepath.Base(cl.File), cl.Line, cl.Text))
+			}
 		}
 	}
 	sort.Strings(out)
